@@ -548,6 +548,18 @@ def _reads_of(e, out=None):
     return out
 
 
+def _walk_stmts(st, path=()):
+    yield path, st
+    if isinstance(st, LoopIR.If):
+        for i, x in enumerate(st.body):
+            yield from _walk_stmts(x, path + (("body", i),))
+        for i, x in enumerate(st.orelse):
+            yield from _walk_stmts(x, path + (("orelse", i),))
+    elif isinstance(st, LoopIR.For):
+        for i, x in enumerate(st.body):
+            yield from _walk_stmts(x, path + (("body", i),))
+
+
 def _stmt_reads(st):
     """(path, name) of every variable read anywhere in the statement (indices, right-hand
     sides, conditions, bounds, call arguments), recursively."""
@@ -1162,7 +1174,10 @@ class Session:
             out = self.faulted(name, call, fault, pid)
         self.unprintable = None
         sig = self.outcome_sig(out)
-        if self.unprintable and out[0] == "ret":
+        unprintable_now = bool(self.unprintable and out[0] == "ret")
+        if unprintable_now and pid in self.tainted:
+            self.probes.hit("unprintable_inherited")
+        elif unprintable_now:
             self.violate("C04", "unprintable-procedure", f"{name} returned a procedure that cannot be printed: {self.unprintable}", name)
         self.log.log("op", op=name, on=pid, o=sig[0], h=stable_hash(*sig[1:]) if sig[0] != "exc" else sig[1])
         st = self.ops.setdefault(name, [0, 0])
@@ -1196,18 +1211,25 @@ class Session:
             elif isinstance(a, dict) and a.get("t") == "proc":
                 yield a["p"]
 
-        if unsafe or pid in self.tainted or any(q in self.tainted for q in _proc_args(rec["args"])):
+        if unsafe or unprintable_now or pid in self.tainted or any(q in self.tainted for q in _proc_args(rec["args"])):
             self.tainted.add(rec["out"])
         if self.checks.get("fwd"):
             self.check_fwd(name, pid, rec["out"])
             self.fwd_memo_for(rec["out"])
-        if self.checks.get("valid"):
+        if self.checks.get("valid") and rec["out"] in self.tainted:
+            # derived from a procedure that was already malformed (a recorded or reported
+            # violation at an earlier step): whatever is wrong now is not this step's doing
+            self.probes.hit("valid_skipped_tainted_input")
+        elif self.checks.get("valid"):
             from .oracles.validator import validate, binder_kind
 
             bad_in = {x[0] for x in validate(p._loopir_proc)}
             for sg, d, sym in validate(r0._loopir_proc):
                 if sg not in bad_in:
-                    self.violate("C04", sg, f"after {name}: {d}", name, {"binder": binder_kind(p._loopir_proc, sym)})
+                    ex_ = {"binder": binder_kind(p._loopir_proc, sym)}
+                    if d.startswith("allocation extent"):
+                        ex_["where"] = "alloc-extent"
+                    self.violate("C04", sg, f"after {name}: {d}", name, ex_)
                     self.tainted.add(rec["out"])
                     break
                 self.probes.hit("valid_inherited")
@@ -1249,11 +1271,49 @@ class Session:
                     n_out = sum(1 for _, st in stmt_paths(self.procs[pid_out]._loopir_proc) if isinstance(st, LoopIR.For))
                     if n_out <= n_in:
                         extra["pred"] = "loop-dropped"
+            if self.target_object_shared(pid_in):
+                extra = dict(extra or {}, shared="target-object-shared")
             if v["sig"] == "unbound-use":
                 from .oracles.validator import binder_kind
 
                 extra = dict(extra or {}, binder=binder_kind(self.procs[pid_in]._loopir_proc, v["detail"].split(" ")[0]))
             self.violate(prop, v["sig"], f"after {name}{tag}: {v['detail']}", name + tag, extra)
+
+    def target_object_shared(self, pid_in):
+        """Does a cursor argument of the current call denote a statement OBJECT that occurs at
+        several places of the input procedure (specialize, cut_loop tails ... leave the same
+        object in all copies)?  exo's ContextExtraction finds the statement by identity and so
+        analyses the first occurrence whatever the cursor said."""
+        try:
+            ir = self.procs[pid_in]._loopir_proc
+            cnt = {}
+            for _p, st in stmt_paths(ir):
+                cnt[id(st)] = cnt.get(id(st), 0) + 1
+
+            def targets(a):
+                if isinstance(a, list):
+                    for x in a:
+                        yield from targets(x)
+                elif isinstance(a, dict) and a.get("t") in ("node", "gap", "block") and a.get("p") == pid_in:
+                    yield a
+
+            for a in targets(self.cur_rec["args"]):
+                node = ir
+                pth = [tuple(x) for x in a["path"]]
+                # statement part of the path only
+                for attr, i in pth:
+                    if attr not in ("body", "orelse"):
+                        break
+                    node = getattr(node, attr)[i]
+                    if cnt.get(id(node), 0) > 1:
+                        return True
+                if a["t"] == "block":
+                    for st in getattr(node, a["attr"])[a["lo"] : a["hi"]]:
+                        if cnt.get(id(st), 0) > 1:
+                            return True
+        except Exception:
+            pass
+        return False
 
     def fission_pred(self, pid_in):
         """Structural class of the recorded fission defect: with respect to one of
@@ -1346,9 +1406,15 @@ class Session:
                     first_mentions_it = any(
                         nm_ == it for st in first for _p, nm_ in _stmt_reads(st)
                     )
-                    for nm, invs in wr.items():
-                        if any(invs) and nm not in rd1 and nm in mod2 and not first_mentions_it:
-                            return "invariant-location-written-then-used"
+                    w1 = set(wr)
+                    for st in first:
+                        for _pp, st2 in _walk_stmts(st):
+                            if isinstance(st2, LoopIR.Call):
+                                for e in st2.args:
+                                    if isinstance(e, (LoopIR.Read, LoopIR.WindowExpr)) and e.type.is_numeric():
+                                        w1.add(e.name)
+                    if not first_mentions_it and (w1 & mod2):
+                        return "invariant-location-written-then-used"
                 level -= 1
                 cut_after = False
         except Exception:
